@@ -582,6 +582,25 @@ Proof.
     + unfold wrap_ok; simpl. split; [intros _; split; auto|]. split; [auto|]. split; [auto|discriminate].
     + unfold wrap_ok; simpl. split; [|split; [auto|split; auto]].
       intros Hh. apply W1 in Hh. destruct Hh as [Hh _]. congruence.
+  - (* LAcqLost *)
+    inv_nth H c Hc. destruct (c_pc c) eqn:Hpc; try discriminate.
+    assert (Hin : In c (s_cs s)) by (eapply nth_error_In; eauto). destruct (Hcs c Hin) as [Cc Wc].
+    destruct (Hrange c Hin) as [Hpos Hlt].
+    unfold e_put_if_absent in H.
+    destruct (e_get Z.eqb (s_kv s) (c_lease c)) eqn:Hg.
+    + unfold with_c in H; inversion H; subst s'; clear H.
+      apply (sys_ok_upd none_removed s i c); auto; try apply ext_refl; try (intros k []).
+      * apply cont_ok_unqueued; simpl; not_queued.
+      * apply (wrap_ok_same (s_kv s) c); auto; simpl; congruence.
+    + destruct (e_put Z.eqb (s_kv s) (c_lease c) tt (c_lease c)) as [kv'|] eqn:Hp;
+        unfold with_c in H; inversion H; subst s'; clear H.
+      * destruct (put_new_ok _ _ _ Hkv Hpos Hg Hp) as (Hkv' & Hext & _).
+        apply (sys_ok_upd none_removed s i c); auto; try (intros k []).
+        -- apply cont_ok_unqueued; simpl; not_queued.
+        -- apply (wrap_ok_same kv' c); [simpl; congruence|auto|auto|auto|eapply wrap_ok_frame; eauto].
+      * apply (sys_ok_upd none_removed s i c); auto; try apply ext_refl; try (intros k []).
+        -- apply cont_ok_unqueued; simpl; not_queued.
+        -- apply (wrap_ok_same (s_kv s) c); auto; simpl; congruence.
 Qed.
 
 Theorem reachable_ok : forall s, reachable step sys_init s -> sys_ok s.
